@@ -54,13 +54,37 @@ package ranges
 //@   ensures! keeps: r >= 0 ==> forall k :: 0 <= k && k < old(leaf.size) ==> leaf.slots[k < r ? k : k + 1] == old(leaf.slots[k])
 //@   ensures! sorted: wfLeaf(leaf)
 
-// Contains on a set that is still a single leaf: no false negatives and no false positives - the answer is
-// yes exactly when some range of the leaf contains the value
+// ---- tree level -------------------------------------------------------------------------------------------
+// A Ranges is either its embedded leaf (tree == nil) or a one level tree of non-empty leaves: slot 0 has the
+// empty separator, every later separator is the lower end of the first range of its leaf, and every range of a
+// leaf ends below the separator of every later slot.
+//@ spec leafLastTo(l *leafNode) string = l.slots[l.size - 1].to
+//@ spec wfTree(t *treeNode) bool = 1 <= t.size && t.size <= 129 && t.slots[0].val == "" && (forall i :: 0 <= i && i < t.size ==> t.slots[i].leaf != nil && rangesLeaf(t.slots[i].leaf) && t.slots[i].leaf.size >= 1) && (forall i :: 1 <= i && i < t.size ==> t.slots[i].val == t.slots[i].leaf.slots[0].from) && (forall i, j :: 0 <= i && i < j && j < t.size ==> leafLastTo(t.slots[i].leaf) < t.slots[j].val)
+//@ spec wfRanges(rs *Ranges) bool = (rs.tree == nil ==> rangesLeaf(rs.leaf)) && (rs.tree != nil ==> wfTree(rs.tree))
+//@ func (tree *treeNode) searchBinary(val) (r)
+//@   requires tree != nil && wfTree(tree)
+//@   ensures! range: 1 <= r && r <= tree.size
+//@   ensures! below: forall k :: 0 <= k && k < r ==> tree.slots[k].val <= val
+//@   ensures! above: forall k :: r <= k && k < tree.size ==> tree.slots[k].val > val
+//@   loop 0 invariant 0 <= i && i <= j && j <= tree.size
+//@   loop 0 invariant forall k :: 0 <= k && k < i ==> tree.slots[k].val <= val
+//@   loop 0 invariant forall k :: j <= k && k < tree.size ==> tree.slots[k].val > val
+//@   loop 0 decreases j - i
+//@ func (tree *treeNode) search(val) (ti, leaf, li)
+//@   requires tree != nil && wfTree(tree)
+//@   ensures! leaf: 0 <= ti && ti < tree.size && leaf == tree.slots[ti].leaf && tree.slots[ti].val <= val && (ti + 1 < tree.size ==> val < tree.slots[ti + 1].val)
+//@   ensures! pos: 0 <= li && li <= leaf.size && (forall k :: 0 <= k && k < li ==> leaf.slots[k].from < val) && (forall k :: li <= k && k < leaf.size ==> leaf.slots[k].from >= val)
 //@ func (rs *Ranges) search(val) (ti, leaf, li)
-//@   requires rs != nil && rs.tree == nil && wfLeaf(rs.leaf)
-//@   ensures! leaf == rs.leaf && 0 <= li && li <= leaf.size && (forall k :: 0 <= k && k < li ==> leaf.slots[k].from < val) && (forall k :: li <= k && k < leaf.size ==> leaf.slots[k].from >= val)
+//@   requires rs != nil && wfRanges(rs)
+//@   ensures! leaf: leaf != nil && rangesLeaf(leaf) && (rs.tree == nil ==> leaf == rs.leaf && ti == 0) && (rs.tree != nil ==> 0 <= ti && ti < rs.tree.size && leaf == rs.tree.slots[ti].leaf && rs.tree.slots[ti].val <= val && (ti + 1 < rs.tree.size ==> val < rs.tree.slots[ti + 1].val))
+//@   ensures! pos: 0 <= li && li <= leaf.size && (forall k :: 0 <= k && k < li ==> leaf.slots[k].from < val) && (forall k :: li <= k && k < leaf.size ==> leaf.slots[k].from >= val)
+
+// Contains: no false negatives and no false positives - the answer is yes exactly when some range of the set
+// (of its leaf, or of any leaf of its tree) contains the value
 //@ func (rs *Ranges) Contains(val) (r)
-//@   requires rs == nil || (rs.tree == nil && rangesLeaf(rs.leaf))
+//@   requires rs == nil || wfRanges(rs)
 //@   ensures! nil_set: rs == nil ==> !r
-//@   ensures! no_false_negative: rs != nil ==> forall k :: 0 <= k && k < rs.leaf.size && rs.leaf.slots[k].from <= val && val <= rs.leaf.slots[k].to ==> r
-//@   ensures! no_false_positive: rs != nil && (forall k :: 0 <= k && k < rs.leaf.size ==> !(rs.leaf.slots[k].from <= val && val <= rs.leaf.slots[k].to)) ==> !r
+//@   ensures! leaf_no_false_negative: rs != nil && rs.tree == nil ==> forall k :: 0 <= k && k < rs.leaf.size && rs.leaf.slots[k].from <= val && val <= rs.leaf.slots[k].to ==> r
+//@   ensures! leaf_no_false_positive: rs != nil && rs.tree == nil && (forall k :: 0 <= k && k < rs.leaf.size ==> !(rs.leaf.slots[k].from <= val && val <= rs.leaf.slots[k].to)) ==> !r
+//@   ensures! tree_no_false_negative: rs != nil && rs.tree != nil ==> forall ti, k :: 0 <= ti && ti < rs.tree.size && 0 <= k && k < rs.tree.slots[ti].leaf.size && rs.tree.slots[ti].leaf.slots[k].from <= val && val <= rs.tree.slots[ti].leaf.slots[k].to ==> r
+//@   ensures! tree_no_false_positive: rs != nil && rs.tree != nil && r ==> exists ti, k :: 0 <= ti && ti < rs.tree.size && 0 <= k && k < rs.tree.slots[ti].leaf.size && rs.tree.slots[ti].leaf.slots[k].from <= val && val <= rs.tree.slots[ti].leaf.slots[k].to
